@@ -135,7 +135,7 @@ PROPS['C16']['runs'].append({'harness': 'string_seq', 'quick': {'rc': rc(800, si
 
 PROPS['C17'] = {
     'runs': [{'harness': 'holders_seq',
-              'quick': {'enum': True, 'rc': rc(12000, sizes=[40, 80, 160])},
+              'quick': {'enum': True, 'rc': rc(50000, sizes=[40, 80, 160])},
               'thorough': {'enum': True, 'rc': rc(150000, sizes=[40, 80, 160, 300]), 'fuzz': {'seconds': 120}}}],
     'rule': 'pair cases: the complete product destination state x source state x operation for optional<T> (T in int, Tracked, move-only, copy-only; '
             'copy/move construct/assign), variant<int,Tracked,TB> (3 alternatives + empty; copy/move assign/construct) and expected<Err,T> (value/error; '
